@@ -25,7 +25,7 @@ def assigned_names(stmts):
             targets = n.targets if isinstance(n, ast.Assign) else [n.target]
             for t in targets:
                 for x in ast.walk(t):
-                    if isinstance(x, ast.Name):
+                    if isinstance(x, ast.Name) and isinstance(x.ctx, (ast.Store, ast.Del)):
                         out.add(x.id)
         elif isinstance(n, (ast.For,)):
             for x in ast.walk(n.target):
@@ -94,6 +94,8 @@ class LoopMixin:
 
     def loop_inv(self, st, spec, polarity):
         env = dict(st.loc)
+        if "$old" not in env and getattr(self, "entry_state", None) is not None and st.loc.get("$depth", 0) == 0:
+            env["$old"] = self.entry_state      # old(...) in an invariant of the verified function: its entry state
         return [(text, self.spec_bool(st, text, env, polarity, env.get("$specmodule") or self.default_spec_module))
                 for text in spec.get("invariant", [])]
 
